@@ -36,6 +36,7 @@ type c15state struct {
 	types    map[int]int     // oracle: type name -> current definition
 	lastFail string          // "", "cfail", "panic": outcome of the latest input
 	lastType bool            // the latest successful input redefined a named type
+	scopeBad bool            // the latest input failed in a statement that had opened a scope
 	diverged bool
 }
 
@@ -46,14 +47,27 @@ func c15new() *c15state {
 }
 
 func c15val(ty int, v string) string {
-	if ty == 0 {
+	switch ty {
+	case 0:
 		return v
+	case 2:
+		return v + ".5"
+	case 3:
+		if n, _ := strconv.Atoi(v); n%2 == 1 {
+			return "true"
+		}
+		return "false"
 	}
 	return `"s` + v + `"`
 }
 func c15tyname(ty int) string {
-	if ty == 0 {
+	switch ty {
+	case 0:
 		return "int"
+	case 2:
+		return "float64"
+	case 3:
+		return "bool"
 	}
 	return "string"
 }
@@ -81,7 +95,7 @@ func c15parse(it string) (c15item, bool) {
 		if !o1 || !o2 || !o3 || len(w) != 4 {
 			return c15item{}, false
 		}
-		if t != 0 {
+		if t > 3 || (w[0] == "const" && t != 0) {
 			t = 1
 		}
 		return c15item{w, fmt.Sprintf("%s n%d %s = %s", w[0], n, c15tyname(t), c15val(t, w[3]))}, true
@@ -115,12 +129,23 @@ func c15parse(it string) (c15item, bool) {
 			return c15item{}, false
 		}
 		return c15item{w, fmt.Sprintf("type T%d struct { F%d int }", t, d)}, true
+	case "alias":
+		t, o1 := num(1)
+		u, o2 := num(2)
+		if !o1 || !o2 || len(w) != 3 {
+			return c15item{}, false
+		}
+		return c15item{w, fmt.Sprintf("type T%d = T%d", t, u)}, true
 	case "bad":
 		if len(w) != 2 {
 			return c15item{}, false
 		}
 		if w[1] == "type" {
 			return c15item{w, `var _ int = "x"`}, true
+		}
+		if w[1] == "scope" {
+			// a STATEMENT that fails to compile after it opened a local scope
+			return c15item{w, "for i := 0; i < 1; i++ { undefinedname }"}, true
 		}
 		return c15item{w, "var _ = undefinedname"}, true
 	case "boom":
@@ -193,6 +218,10 @@ func (st *c15state) observe(n int) (full string, noIdx string) {
 			ty = "int"
 		case reflect.String:
 			ty = "string"
+		case reflect.Float64:
+			ty = "float64"
+		case reflect.Bool:
+			ty = "bool"
 		case reflect.Struct:
 			ty = "T"
 		}
@@ -224,6 +253,16 @@ func (st *c15state) observe(n int) (full string, noIdx string) {
 		switch x := vals[0].Interface().(type) {
 		case int:
 			val = strconv.Itoa(x)
+		case float64:
+			val = strconv.Itoa(int(x))
+			if x != float64(int(x))+0.5 {
+				val = fmt.Sprintf("?%v", x) // not a value any input assigned (e.g. int bits read as float)
+			}
+		case bool:
+			val = "0"
+			if x {
+				val = "1"
+			}
 		case string:
 			val = strings.TrimPrefix(x, "s")
 			if x == "<invalid Value>" {
@@ -256,6 +295,40 @@ func c15exec(op string) Result {
 	case "stat":
 		c := st.ir.Comp
 		return Result{Out: fmt.Sprintf("stat bn=%d ibn=%d", c.BindNum, c.IntBindNum), Tags: []string{"stat"}}
+	case "gett":
+		t, err := strconv.Atoi(arg)
+		if err != nil || t < 0 {
+			return Result{Out: "bad-op"}
+		}
+		out := "none"
+		if xt := st.ir.Comp.Types[fmt.Sprintf("T%d", t)]; xt != nil {
+			out = "type def=-"
+			if xt.Kind() == reflect.Struct && xt.NumField() == 1 {
+				d := -1
+				if _, err := fmt.Sscanf(xt.Field(0).Name, "F%d", &d); err == nil {
+					out = fmt.Sprintf("type def=%d", d)
+				}
+			}
+		}
+		r := Result{Out: out, Tags: []string{"gett"}, Nontrivial: out != "none", Sig: out + "|" + st.lastFail}
+		if st.diverged {
+			return r
+		}
+		want := "none"
+		if d, ok := st.types[t]; ok {
+			want = fmt.Sprintf("type def=%d", d)
+		}
+		if out != want {
+			key := "type-name-mismatch"
+			if st.lastFail == "cfail" {
+				key = "failed-compile-clobbers-type"
+			}
+			r.Viol = fmt.Sprintf("T%d denotes %q, the last successful definitions say %q (latest input: %s)", t, out, want, st.lastFail)
+			r.Key = key
+			r.Tags = append(r.Tags, "viol:"+key)
+			st.diverged = true
+		}
+		return r
 	case "get":
 		n, err := strconv.Atoi(arg)
 		if err != nil || n < 0 {
@@ -329,6 +402,13 @@ func c15exec(op string) Result {
 				case "typ":
 					t, _ := strconv.Atoi(it.w[1])
 					types[t] = true
+				case "alias":
+					t, _ := strconv.Atoi(it.w[1])
+					u, _ := strconv.Atoi(it.w[2])
+					if !types[u] {
+						expect = "cfail"
+					}
+					types[t] = true
 				case "varT":
 					t, _ := strconv.Atoi(it.w[2])
 					if !types[t] {
@@ -356,10 +436,20 @@ func c15exec(op string) Result {
 		if status != expect && !st.diverged {
 			r.Viol = fmt.Sprintf("input %q: interpreter says %s, Go's rules on the definitions so far say %s", src, status, expect)
 			r.Key = "status-" + status + "-want-" + expect
+			if st.scopeBad && status == "panic" {
+				r.Key = "failed-input-code-runs-later"
+				r.Viol += " (the previous input failed to compile inside a statement with a local scope: its PushEnv was left in the code buffer and runs now)"
+			}
 			r.Tags = append(r.Tags, "viol:"+r.Key)
 			st.diverged = true
 		}
 		st.lastFail, st.lastType = "", false
+		st.scopeBad = false
+		for _, it := range items {
+			if it.w[0] == "bad" && it.w[1] == "scope" {
+				st.scopeBad = true
+			}
+		}
 		switch expect {
 		case "cfail":
 			st.lastFail = "cfail"
@@ -382,6 +472,14 @@ func c15exec(op string) Result {
 						r.Tags = append(r.Tags, "type-redefined")
 					}
 					st.types[t] = d
+				case "alias":
+					t, _ := strconv.Atoi(w[1])
+					u, _ := strconv.Atoi(w[2])
+					if _, redefined := st.types[t]; redefined {
+						st.lastType = true
+						r.Tags = append(r.Tags, "type-redefined-by-alias")
+					}
+					st.types[t] = st.types[u]
 				case "var", "const", "func", "varT":
 					n, _ := strconv.Atoi(w[1])
 					if _, re := st.want[n]; re {
@@ -396,9 +494,14 @@ func c15exec(op string) Result {
 					delete(st.unknown, n)
 					switch w[0] {
 					case "var":
-						cls, ty := "ivar", "int"
-						if w[2] != "0" {
-							cls, ty = "bvar", "string"
+						cls, ty := "bvar", "string"
+						switch w[2] {
+						case "0":
+							cls, ty = "ivar", "int"
+						case "2":
+							cls, ty = "ivar", "float64"
+						case "3":
+							cls, ty = "ivar", "bool"
 						}
 						st.want[n] = &c15def{cls: cls, ty: ty, val: w[3]}
 					case "const":
@@ -429,7 +532,9 @@ func c15exec(op string) Result {
 
 func c15randItem(r *rand.Rand, names, tnames int, failing bool) string {
 	if failing {
-		switch r.Intn(4) {
+		switch r.Intn(5) {
+		case 4:
+			return "bad scope"
 		case 0:
 			return "bad undef"
 		case 1:
@@ -437,12 +542,19 @@ func c15randItem(r *rand.Rand, names, tnames int, failing bool) string {
 		case 2:
 			return fmt.Sprintf("func %d %d %d bad", r.Intn(names), r.Intn(2), r.Intn(90))
 		default:
+			if r.Intn(3) == 0 {
+				return fmt.Sprintf("alias %d %d", r.Intn(tnames), tnames+1+r.Intn(2)) // alias of an undefined type
+			}
 			return fmt.Sprintf("varT %d %d %d", r.Intn(names), tnames+1+r.Intn(2), r.Intn(90)) // undefined type
 		}
 	}
-	switch r.Intn(10) {
+	switch r.Intn(12) {
+	case 10:
+		return fmt.Sprintf("alias %d %d", r.Intn(tnames), r.Intn(tnames))
+	case 11:
+		return fmt.Sprintf("var %d 3 %d", r.Intn(names), r.Intn(2))
 	case 0, 1, 2:
-		return fmt.Sprintf("var %d %d %d", r.Intn(names), r.Intn(2), r.Intn(90))
+		return fmt.Sprintf("var %d %d %d", r.Intn(names), r.Intn(3), r.Intn(90))
 	case 3, 4:
 		return fmt.Sprintf("varT %d %d %d", r.Intn(names), r.Intn(tnames), r.Intn(90))
 	case 5:
@@ -457,52 +569,81 @@ func c15randItem(r *rand.Rand, names, tnames int, failing bool) string {
 // Go (and gomacro's dependency sorter, base/dep) treats the declarations of one input as an unordered
 // set: types are compiled before the declarations that use them and all declarations of one NAME are
 // grouped; a name declared twice in one input is not valid Go at all.  The generator therefore emits
-// only inputs that are in-order code: every name declared at most once per input, a named type used only
+// only inputs that are in-order code: the declarations of one name adjacent (the sorter groups them), a named type used only
 // after its (re)declaration in the same input, and a run-time panic only as the last statement (nothing
 // is declared-but-never-initialised).  The model compiles the items in the order given.
 func c15inOrder(items []string) bool {
 	used := map[string]bool{}
 	names := map[string]bool{}
+	last := ""
 	for i, it := range items {
 		w := strings.Split(it, " ")
+		declared := ""
 		switch w[0] {
 		case "varT":
 			used[w[2]] = true
-		case "typ":
-			if used[w[1]] || names["T"+w[1]] {
+			declared = w[1]
+		case "var", "const", "func":
+			declared = w[1]
+		case "typ", "alias":
+			if used[w[1]] {
 				return false
 			}
-			names["T"+w[1]] = true
+			if w[0] == "alias" {
+				used[w[2]] = true
+			}
+			declared = "T" + w[1]
 		case "boom":
 			if i != len(items)-1 {
 				return false
 			}
-		}
-		switch w[0] {
-		case "var", "varT", "const", "func":
-			if names[w[1]] {
+		case "bad":
+			if len(w) > 1 && w[1] == "scope" && i != len(items)-1 {
 				return false
 			}
-			names[w[1]] = true
 		}
+		if declared != "" {
+			// the declarations of one name are grouped by the sorter: allowed only when adjacent
+			if names[declared] && last != declared {
+				return false
+			}
+			names[declared] = true
+		}
+		last = declared
 	}
 	return true
 }
 
+// the name an item declares ("" if none): bind names as "n<k>", type names as "T<k>"
+func c15declared(it string) string {
+	w := strings.Split(it, " ")
+	switch w[0] {
+	case "var", "varT", "const", "func":
+		return "n" + w[1]
+	case "typ", "alias":
+		return "T" + w[1]
+	}
+	return ""
+}
+
 func c15generate(r *rand.Rand, tier string, emit func(string)) {
 	thorough := tier == "thorough"
-	getAll := func(names int) {
+	getAll := func(names, tnames int) {
 		for n := 0; n < names; n++ {
 			emit(fmt.Sprintf("get %d", n))
 		}
+		for t := 0; t < tnames; t++ {
+			emit(fmt.Sprintf("gett %d", t))
+		}
 		emit("stat")
 	}
-	// (1) bounded-exhaustive: after a fixed prefix (an int variable, a string constant, a function, a named
-	//     type and a variable of it), EVERY input of one or two items over the alphabet below, then a third
-	//     successful input, reading every name after each
-	alpha := []string{"var 0 1 5", "var 0 0 6", "var 4 0 8", "varT 0 0 9", "varT 3 0 4", "varT 3 7 4", "const 1 0 2", "const 0 1 3",
-		"func 2 1 7 ok", "func 2 0 7 bad", "func 0 0 7 ok", "func 5 0 1 bad", "typ 0 2", "typ 1 3", "bad undef", "bad type", "boom"}
-	prefix := "in var 0 0 7|const 1 1 3|func 2 0 9 ok|typ 0 1|varT 3 0 5"
+	// (1) bounded-exhaustive: after a fixed prefix (an int variable, a string constant, a function, two named
+	//     types and a variable of the first), EVERY input of one or two items over the alphabet below, then a
+	//     third successful input, reading every name and every type name after each
+	alpha := []string{"var 0 1 5", "var 0 0 6", "var 0 2 6", "var 0 3 1", "var 4 0 8", "var 6 2 3", "varT 0 0 9", "varT 3 0 4", "varT 3 7 4",
+		"const 1 0 2", "const 0 1 3", "func 2 1 7 ok", "func 2 0 7 bad", "func 0 0 7 ok", "func 5 0 1 bad", "typ 0 2", "typ 1 3",
+		"alias 0 1", "alias 2 0", "alias 0 7", "bad undef", "bad type", "bad scope", "boom"}
+	prefix := "in var 0 0 7|const 1 1 3|func 2 0 9 ok|typ 0 1|varT 3 0 5|typ 1 4"
 	var inputs []string
 	for _, a := range alpha {
 		inputs = append(inputs, a)
@@ -514,18 +655,43 @@ func c15generate(r *rand.Rand, tier string, emit func(string)) {
 			}
 		}
 	}
+	// (1b) every pair of items that (re)declare the SAME name (twice in one input), followed by each kind of
+	//      failure, and the same with a third re-declaration: the journal must be replayed newest-first
+	fails := []string{"bad undef", "bad type", "bad scope", "func 5 0 1 bad", "varT 6 7 1", "alias 2 7"}
+	for _, a := range alpha {
+		for _, b := range alpha {
+			if d := c15declared(a); d == "" || d != c15declared(b) {
+				continue
+			}
+			for _, f := range fails {
+				if c15inOrder([]string{a, b, f}) {
+					inputs = append(inputs, a+"|"+b+"|"+f)
+				}
+			}
+			for _, c := range alpha {
+				if c15declared(c) == c15declared(a) && c15inOrder([]string{a, b, c, "bad undef"}) && r.Intn(4) == 0 {
+					inputs = append(inputs, a+"|"+b+"|"+c+"|bad undef")
+				}
+			}
+		}
+	}
 	inputs = append(inputs, "SYNTAX")
 	for _, in := range inputs {
 		emit("reset")
 		emit(prefix)
-		getAll(6)
+		getAll(7, 3)
 		emit("in " + in)
-		getAll(6)
-		emit("in var 4 1 1|typ 0 3|varT 5 0 2")
-		getAll(6)
+		if !strings.Contains(in, "bad scope") {
+			// (reading a name is an evaluation of its own and discards stale code: after a failing scoped
+			// statement the next declaration must follow IMMEDIATELY to see whether code was left behind)
+			getAll(7, 3)
+		}
+		emit("in var 4 0 1|typ 0 3|varT 5 0 2")
+		getAll(7, 3)
 	}
-	// (2) random histories: small name pools (frequent redefinition), inputs of 1-5 items, a failing item
-	//     at a random position in a third of the inputs, sometimes a run-time panic
+	// (2) random histories: small name pools (frequent redefinition), inputs of 1-6 items, a failing item
+	//     at a random position in a third of the inputs, sometimes the same name declared 2-3 times in a
+	//     row, sometimes a run-time panic at the end
 	nh, nin := 60, 30
 	if thorough {
 		nh, nin = 1500, 40
@@ -551,7 +717,18 @@ func c15generate(r *rand.Rand, tier string, emit func(string)) {
 						} else if j == k-1 && r.Intn(12) == 0 {
 							items = append(items, "boom")
 						} else {
-							items = append(items, c15randItem(r, names, tnames, false))
+							it := c15randItem(r, names, tnames, false)
+							items = append(items, it)
+							// re-declare the same name once or twice more, with other kinds/types
+							for rep := r.Intn(4); rep >= 2 && c15declared(it) != ""; rep-- {
+								for t2 := 0; t2 < 30; t2++ {
+									it2 := c15randItem(r, names, tnames, false)
+									if c15declared(it2) == c15declared(it) {
+										items = append(items, it2)
+										break
+									}
+								}
+							}
 						}
 					}
 					if c15inOrder(items) {
@@ -562,8 +739,11 @@ func c15generate(r *rand.Rand, tier string, emit func(string)) {
 					continue
 				}
 				emit("in " + strings.Join(items, "|"))
+				if items[len(items)-1] == "bad scope" && r.Intn(2) == 0 {
+					continue // the next input follows immediately
+				}
 			}
-			getAll(names)
+			getAll(names, tnames)
 		}
 	}
 }
@@ -571,7 +751,7 @@ func c15generate(r *rand.Rand, tier string, emit func(string)) {
 func init() {
 	register(&Prop{
 		ID:   "C15",
-		Rule: "bounded-exhaustive: after a fixed prefix (int variable, string constant, function, named type, variable of it) every input of 1 or 2 items over a 17-item alphabet (re-declarations of each kind with the same/another type, failing function body, undefined type, undefined identifier, type error, run-time panic) + the syntax error, every name read back after each input; plus random histories over small name pools (inputs of 1-5 items, a failing item at a random position in a third of them). Non-trivial: inputs and reads of bound names; distinct by (status, item kinds, failing position) / (observation, outcome of the latest input).",
+		Rule: "bounded-exhaustive: after a fixed prefix (int variable, string constant, function, named type, variable of it) every input of 1 or 2 items over a 24-item alphabet (re-declarations of each kind with the same/another type incl. int/float64/bool/string, type aliases, failing function body, undefined type, undefined identifier, type error, run-time panic), every pair of re-declarations of ONE name followed by each kind of failure, + the syntax error; every name (class, type, slot, value) and every type name read back after each input; plus random histories over small name pools (inputs of 1-5 items, a failing item at a random position in a third of them). Non-trivial: inputs and reads of bound names; distinct by (status, item kinds, failing position) / (observation, outcome of the latest input).",
 		Gen:  c15generate,
 		Exec: c15exec,
 		Exhaustive: func(tier string) bool {
